@@ -258,10 +258,21 @@ def unit_skeleton(repo):
     if len(st) != 3:
         raise Untranslatable("init_solve has %d statements" % len(st))
     pre = _processor_loop(st[0], "pre")
-    if not (isinstance(st[2], ast.If) and not st[2].orelse and len(st[2].body) == 1
+    if not (isinstance(st[2], ast.If) and len(st[2].body) == 1
             and isinstance(st[2].test, ast.UnaryOp) and isinstance(st[2].test.op, ast.Not)):
         raise Untranslatable("init_solve: out profile creation guard")
     sk["init_solve"] = pre + [_step(st[1]), "if not " + _path(st[2].test.operand) + ": " + _step(st[2].body[0])]
+    # the `else:` branch of the guard (source form with hand-over to a re-used out profile); absent in the older form
+    if st[2].orelse:
+        if len(isv.args.args) != 2:
+            raise Untranslatable("init_solve signature")
+        try:
+            sk["reuse"] = reuse_branch(st[2].orelse, _path(st[2].test.operand), isv.args.args[1].arg)
+        except Untranslatable as ex:    # only this part of the skeleton is lost
+            sk["reuse"] = dict(MISSING_REUSE)
+            sk.setdefault("gaps", []).append(str(ex))
+    else:
+        sk["reuse"] = None
 
     # Unit.get_root_hook_results
     g = _find_def(unit.body, "get_root_hook_results")
@@ -312,6 +323,140 @@ def unit_skeleton(repo):
                    "returned": {"var": ret_rule[0], "cls": ret_rule[1], "source": ret_rule[2], "hide": ret_rule[3]},
                    "post": post, "ret": ret}
     return sk
+
+
+# ---- the `else:` branch of `init_solve`: hand-over to a re-used out profile -------------------------------------------
+MISSING_REUSE = {"roots": ("<missing>", "", ""), "handed": ("<missing>", ""), "delete": ("<missing>", "", []),
+                 "set": ("<missing>", "", [])}
+
+
+def _literal(node, kvar, names, out_dict):
+    """one literal of a delete / set condition -> (atom, polarity, hidden prefix or None); atoms:
+    hidden  `k.startswith(P)`      root  `k in ROOTS`      handed  `k in HANDED`      present  `k in <out>.__dict__`"""
+    if isinstance(node, ast.UnaryOp) and isinstance(node.op, ast.Not):
+        a, pol, pfx = _literal(node.operand, kvar, names, out_dict)
+        return a, not pol, pfx
+    if isinstance(node, ast.Call) and isinstance(node.func, ast.Attribute) and node.func.attr == "startswith" \
+            and isinstance(node.func.value, ast.Name) and node.func.value.id == kvar and len(node.args) == 1 \
+            and not node.keywords and isinstance(node.args[0], ast.Constant) and isinstance(node.args[0].value, str):
+        return "hidden", True, node.args[0].value
+    if isinstance(node, ast.Compare) and len(node.ops) == 1 and isinstance(node.ops[0], (ast.In, ast.NotIn)) \
+            and isinstance(node.left, ast.Name) and node.left.id == kvar:
+        pol = isinstance(node.ops[0], ast.In)
+        c = node.comparators[0]
+        if isinstance(c, ast.Name) and c.id in names:
+            return names[c.id], pol, None
+        if attr_path(c) is not None and ".".join(attr_path(c)) == out_dict:
+            return "present", pol, None
+    raise Untranslatable("re-use branch: condition " + ast.unparse(node)[:80])
+
+
+def _literals(nodes, op, kvar, names, out_dict, hide):
+    """`a and b and c` (op = ast.And; several `if`s of a comprehension count as `and`) / `a or b` -> [(atom, polarity)]"""
+    flat = []
+    for n in nodes:
+        if isinstance(n, ast.BoolOp) and isinstance(n.op, op):
+            flat += n.values
+        elif isinstance(n, ast.BoolOp):
+            raise Untranslatable("re-use branch: mixed and/or in " + ast.unparse(n)[:80])
+        else:
+            flat.append(n)
+    out = []
+    for n in flat:
+        a, pol, pfx = _literal(n, kvar, names, out_dict)
+        if pfx is not None and pfx != hide:
+            raise Untranslatable(f"re-use branch: hidden prefix {pfx!r} differs from the hand-over rule's {hide!r}")
+        out.append((a, pol))
+    return out
+
+
+def _renamed(node, old, new):
+    """a copy of the expression with the local name `old` written as `new`"""
+    import copy
+    node = copy.deepcopy(node)
+    for n in ast.walk(node):
+        if isinstance(n, ast.Name) and n.id == old:
+            n.id = new
+    return node
+
+
+def reuse_branch(stmts, out_path, in_param):
+    """roots = {h.name for h in root_hooks if isinstance(OUT, h.owner)}
+    handed = {k: v for k, v in IN.__dict__.items() if not k.startswith(P)}
+    outdated = [k for k in OUT.__dict__ if <and of literals>]
+    for k in outdated: delattr(OUT, k)
+    for k, v in handed.items():
+        if <or of literals>: setattr(OUT, k, v)
+    -> {"roots": (elt, iter, cond), "handed": (source, prefix), "delete": (iterated, action, literals),
+        "set": (iterated, action, literals)} with the local names normalised (HOOK, HANDED, k, v)"""
+    stmts = [s for s in stmts if not _is_logging(s)]
+    if len(stmts) != 5:
+        raise Untranslatable("re-use branch of init_solve has %d statements" % len(stmts))
+    a_roots, a_handed, a_out, f_del, f_set = stmts
+    for a in (a_roots, a_handed, a_out):
+        if not (isinstance(a, ast.Assign) and len(a.targets) == 1 and isinstance(a.targets[0], ast.Name)):
+            raise Untranslatable("re-use branch: " + ast.unparse(a)[:80])
+    out_dict = out_path + ".__dict__"
+    # roots
+    sc = a_roots.value
+    if not (isinstance(sc, ast.SetComp) and len(sc.generators) == 1 and not sc.generators[0].is_async
+            and isinstance(sc.generators[0].target, ast.Name) and len(sc.generators[0].ifs) == 1):
+        raise Untranslatable("re-use branch: root hook names " + ast.unparse(sc)[:80])
+    g = sc.generators[0]
+    h = g.target.id
+    cond = g.ifs[0]
+    if not (isinstance(cond, ast.Call) and isinstance(cond.func, ast.Name) and cond.func.id == "isinstance"
+            and len(cond.args) == 2 and not cond.keywords):
+        raise Untranslatable("re-use branch: root hook test " + ast.unparse(cond)[:80])
+    roots = (_path(_renamed(sc.elt, h, "HOOK")), _path(g.iter), _call_sig(_renamed(cond, h, "HOOK")))
+    # handed over
+    src, hide = copy_rule(a_handed.value)
+    if not src.startswith(in_param + "."):
+        raise Untranslatable("re-use branch: hands over from " + src)
+    handed = ("in_profile" + src[len(in_param):], hide)
+    names = {a_roots.targets[0].id: "root", a_handed.targets[0].id: "handed"}
+    # outdated
+    lc = a_out.value
+    if not (isinstance(lc, ast.ListComp) and len(lc.generators) == 1 and not lc.generators[0].is_async
+            and isinstance(lc.generators[0].target, ast.Name) and isinstance(lc.elt, ast.Name)
+            and lc.elt.id == lc.generators[0].target.id and lc.generators[0].ifs):
+        raise Untranslatable("re-use branch: outdated entries " + ast.unparse(lc)[:80])
+    g = lc.generators[0]
+    if _path(g.iter) != out_dict:
+        raise Untranslatable("re-use branch: outdated entries are taken from " + _path(g.iter))
+    del_lits = _literals(g.ifs, ast.And, g.target.id, names, out_dict, hide)
+    # delete loop
+    if not (isinstance(f_del, ast.For) and not f_del.orelse and isinstance(f_del.target, ast.Name)
+            and isinstance(f_del.iter, ast.Name) and f_del.iter.id == a_out.targets[0].id and len(f_del.body) == 1):
+        raise Untranslatable("re-use branch: delete loop " + ast.unparse(f_del)[:80])
+    k = f_del.target.id
+    del_act = _step(f_del.body[0])
+    if del_act != f"delattr({out_path}, {k})":
+        raise Untranslatable("re-use branch: delete loop does " + del_act)
+    # set loop
+    if not (isinstance(f_set, ast.For) and not f_set.orelse and isinstance(f_set.target, ast.Tuple)
+            and len(f_set.target.elts) == 2 and all(isinstance(e, ast.Name) for e in f_set.target.elts)
+            and isinstance(f_set.iter, ast.Call) and isinstance(f_set.iter.func, ast.Attribute)
+            and f_set.iter.func.attr == "items" and not f_set.iter.args
+            and isinstance(f_set.iter.func.value, ast.Name) and f_set.iter.func.value.id == a_handed.targets[0].id
+            and len(f_set.body) == 1):
+        raise Untranslatable("re-use branch: set loop " + ast.unparse(f_set)[:80])
+    kk, vv = (e.id for e in f_set.target.elts)
+    inner = f_set.body[0]
+    if isinstance(inner, ast.If):
+        if inner.orelse or len(inner.body) != 1:
+            raise Untranslatable("re-use branch: set loop if/else")
+        set_lits = _literals([inner.test], ast.Or, kk, names, out_dict, hide)
+        act = inner.body[0]
+    else:
+        set_lits = [("present", True), ("present", False)]      # unconditional
+        act = inner
+    set_act = _step(act)
+    if set_act != f"setattr({out_path}, {kk}, {vv})":
+        raise Untranslatable("re-use branch: set loop does " + set_act)
+    return {"roots": roots, "handed": handed,
+            "delete": (out_dict, f"delattr({out_path}, k)", del_lits),
+            "set": ("HANDED.items()", f"setattr({out_path}, k, v)", set_lits)}
 
 
 def _is_weakref(c):
@@ -446,6 +591,7 @@ def emit(repo, tie_breaks):
               "fallback": {"cond": "<missing>", "then": "", "else": ""},
               "solve_subunits": {"cond": "<missing>", "init": "", "over": "", "step": ""},
               "init_solve": ["<missing>"], "root_results": ["<missing>"],
+              "reuse": dict(MISSING_REUSE),
               "solve": {"before": [], "loop": ["<missing>"], "returned": {"var": "", "cls": "", "source": "", "hide": ""},
                         "post": [], "ret": ""}}
     ev = guarded("HookHost.evaluate_and_set_hooks", lambda: evaluate_and_set(repo), ["<missing>"])
@@ -462,6 +608,29 @@ def emit(repo, tie_breaks):
                f"{lean_str(ss['over'])}, {lean_str(ss['step'])})")
     out.append("/-- `Unit.init_solve`: pre-processor chaining, creation of the in profile, creation of the out profile -/")
     out.append(f"def initSolve : List String := {_lean_list(sk['init_solve'])}")
+    for g in sk.get("gaps", []):
+        tie_breaks.append("translator: unit.py init_solve: " + g)
+    ru = sk["reuse"]
+    out.append("/-- `Unit.init_solve`: is there an `else:` branch of the out profile guard (the previous solve's out profile is "
+               "re-used and gets the current incoming state handed over)? -/")
+    out.append(f"def reuseHandsOver : Bool := {'false' if ru is None else 'true'}")
+    if ru is None:
+        ru = {"roots": ("", "", ""), "handed": ("", ""), "delete": ("", "", []), "set": ("", "", [])}
+
+    def lits(ls):
+        return "[" + ", ".join(f"({lean_str(a)}, {'true' if p else 'false'})" for (a, p) in ls) + "]"
+    out.append("/-- … the names that count as root hooks there: (element, iterated collection, condition) of the set comprehension -/")
+    out.append("def reuseRoots : String × String × String := (" + ", ".join(lean_str(x) for x in ru["roots"]) + ")")
+    out.append("/-- … what is handed over: (source dict, prefix of the names that are not) -/")
+    out.append("def reuseHanded : String × String := (" + ", ".join(lean_str(x) for x in ru["handed"]) + ")")
+    out.append("/-- … which entries of (iterated dict) are deleted by (action): CONJUNCTION of literals (atom, polarity); atoms: "
+               "hidden = name starts with the prefix, root = name in the root hook names, handed = name among the handed-over "
+               "entries, present = name in the out profile's `__dict__` -/")
+    out.append(f"def reuseDelete : String × String × List (String × Bool) := ({lean_str(ru['delete'][0])}, "
+               f"{lean_str(ru['delete'][1])}, {lits(ru['delete'][2])})")
+    out.append("/-- … which of (iterated entries) are set by (action): DISJUNCTION of literals -/")
+    out.append(f"def reuseSet : String × String × List (String × Bool) := ({lean_str(ru['set'][0])}, "
+               f"{lean_str(ru['set'][1])}, {lits(ru['set'][2])})")
     out.append("/-- `Unit.get_root_hook_results`: order in which the root hooks of in profile, out profile and unit are evaluated -/")
     out.append(f"def rootResults : List String := {_lean_list(sk['root_results'])}")
     sv = sk["solve"]
